@@ -52,6 +52,7 @@ func c09cBacklogPort() int {
 // jitterWatch measures how late a 2 ms sleeper wakes up while the case runs.
 type jitterWatch struct {
 	stop chan struct{}
+	once sync.Once
 	max  int64
 }
 
@@ -75,7 +76,7 @@ func startJitterWatch() *jitterWatch {
 }
 
 func (j *jitterWatch) Stop() time.Duration {
-	close(j.stop)
+	j.once.Do(func() { close(j.stop) })
 	return time.Duration(atomic.LoadInt64(&j.max))
 }
 
